@@ -457,6 +457,23 @@ func checkC01(c *Ctx) {
 		raw, _ := json.Marshal(map[string]interface{}{"fam": "optin", "name": k})
 		add("opt-in analyses on "+k+"\n"+text, raw, c01Session(id, files, nil, "fx.lua", text, c01Positions(text, 10)))
 	}
+	// ---- (i) more entry files than the project pass has workers (its pool hands out the remaining entries one by one) ----
+	for _, n := range []int{3, 40, 70} {
+		files := map[string]string{"shared.lua": "shared_g = 1\nfunction shared_f(a) return a end\n"}
+		var entries []string
+		text := ""
+		for e := 0; e < n; e++ {
+			fn := fmt.Sprintf("entry%02d.lua", e)
+			text = fmt.Sprintf("require(\"shared\")\nlocal v%d = shared_f(shared_g)\nprint(v%d)\n", e, e)
+			files[fn] = text
+			entries = append(entries, fmt.Sprintf("%q", fn))
+		}
+		files["luahelper.json"] = `{"ShowWarnFlag":1,"ProjectFiles":[` + strings.Join(entries, ",") + `]}`
+		id++
+		raw, _ := json.Marshal(map[string]interface{}{"fam": "entries", "n": n})
+		last := fmt.Sprintf("entry%02d.lua", n-1)
+		add(fmt.Sprintf("%d entry files in ProjectFiles, session on the last one", n), raw, c01Session(id, files, nil, last, text, c01Positions(text, 6)))
+	}
 	// ---- (h) luahelper.json whose ignore entries are not regular expressions (shell globs, stray brackets), over a
 	// workspace that has diagnostics to filter ----
 	for ci, cfgText := range []string{
